@@ -348,10 +348,255 @@ func c14TallyKeyAgreement(c *rep.Ctx) {
 		return
 	}
 	rmap := c.Prog.LookupField("contract/system", "VoteResult", "rmap")
-	shapes := func(f *an.Func) []string {
+	// shapes(f, precise): the key shapes of f.  A slice expression that walks
+	// a byte string in K-byte strides is normalised to stride(<base>,K) in
+	// both spellings
+	//     for off := 0; ...; off += K { B[off : off+K] }        (index-stride)
+	//     for r := B; ...; r = r[K:]   { r[:K] }                (shrinking slice)
+	// (the i-th key is B[i*K:(i+1)*K] in both; how many strides are taken is the
+	// loop bound, decided by stored-bounds).  A window whose width differs from
+	// the step of its cursor is spelled window(<base>,W,step=S): crediting under
+	// 39-byte keys and debiting under 38-byte keys is a disagreement.
+	// With precise == false a stride is
+	// spelled like any other slice, slice(<base>), the abstraction this rule
+	// had before (bounds ignored); it is used only when one of the two
+	// functions slices in a way that is not recognised as a stride walk.
+	// unrec reports whether such an unrecognised slice occurred.
+	shapes := func(f *an.Func, precise bool) (keys []string, unrec bool) {
 		info := f.Info()
 		g := f.Graph()
 		set := map[string]bool{}
+		// every assignment of a function-local variable: tok DEFINE for the
+		// declaration (rhs nil: zero value), ASSIGN / ADD_ASSIGN / INC ... for the
+		// others; opaque when the variable is a range variable, part of a
+		// multi-value assignment, or has its address taken.
+		type asg struct {
+			tok token.Token
+			rhs ast.Expr
+		}
+		assignsOf := func(o types.Object) (out []asg, opaque bool) {
+			ast.Inspect(f.Body, func(n ast.Node) bool {
+				switch st := n.(type) {
+				case *ast.AssignStmt:
+					for i, l := range st.Lhs {
+						if an.ObjOf(info, l) != o {
+							continue
+						}
+						if _, isID := ast.Unparen(l).(*ast.Ident); !isID {
+							continue
+						}
+						if len(st.Lhs) != len(st.Rhs) {
+							opaque = true
+							continue
+						}
+						out = append(out, asg{st.Tok, st.Rhs[i]})
+					}
+				case *ast.IncDecStmt:
+					if id, isID := ast.Unparen(st.X).(*ast.Ident); isID && an.ObjOf(info, id) == o {
+						out = append(out, asg{st.Tok, nil})
+					}
+				case *ast.ValueSpec:
+					for i, nm := range st.Names {
+						if info.Defs[nm] != o {
+							continue
+						}
+						switch {
+						case len(st.Values) == 0:
+							out = append(out, asg{token.DEFINE, nil})
+						case len(st.Values) == len(st.Names):
+							out = append(out, asg{token.DEFINE, st.Values[i]})
+						default:
+							opaque = true
+						}
+					}
+				case *ast.RangeStmt:
+					if (st.Key != nil && an.ObjOf(info, st.Key) == o) || (st.Value != nil && an.ObjOf(info, st.Value) == o) {
+						opaque = true
+					}
+				case *ast.UnaryExpr:
+					if st.Op == token.AND && an.ObjOf(info, st.X) == o {
+						opaque = true
+					}
+				}
+				return true
+			})
+			return
+		}
+		localVar := func(e ast.Expr) types.Object {
+			id, isID := ast.Unparen(e).(*ast.Ident)
+			if !isID {
+				return nil
+			}
+			v, isVar := an.ObjOf(info, id).(*types.Var)
+			if !isVar || v.IsField() || v.Pkg() == nil || v.Parent() == v.Pkg().Scope() || f.Body == nil || v.Pos() < f.Body.Pos() || v.Pos() > f.Body.End() {
+				return nil // parameters and package-level variables are not loop cursors
+			}
+			return v
+		}
+		constOf := func(e ast.Expr) (int64, bool) {
+			if e == nil {
+				return 0, true
+			}
+			l, ok := linOf(info, e)
+			if !ok {
+				return 0, false
+			}
+			for k := range l {
+				if k != "1" {
+					return 0, false
+				}
+			}
+			return l["1"], true
+		}
+		// strideOf: (base expression, stride K, first offset) of a slice
+		// expression that is one step of a K-byte stride walk.
+		strideOf := func(x *ast.SliceExpr) (base ast.Expr, k, step, from int64, ok bool) {
+			// shrinking slice: r[:K], r := B once, every other assignment r = r[K:]
+			if r := localVar(x.X); r != nil && x.High != nil {
+				lo, okLo := constOf(x.Low)
+				hi, okHi := constOf(x.High)
+				as, opaque := assignsOf(r)
+				if okLo && okHi && lo == 0 && hi > 0 && !opaque {
+					var init ast.Expr
+					inits, steps, good := 0, 0, true
+					stepBy := int64(-1)
+					for _, a := range as {
+						switch a.tok {
+						case token.DEFINE:
+							inits++
+							init = a.rhs
+						case token.ASSIGN:
+							se, isSl := ast.Unparen(a.rhs).(*ast.SliceExpr)
+							if !isSl || se.High != nil || se.Slice3 || localVar(se.X) != r {
+								good = false
+								break
+							}
+							if by, isC := constOf(se.Low); !isC || se.Low == nil || by <= 0 || (stepBy >= 0 && by != stepBy) {
+								good = false
+							} else {
+								stepBy = by
+							}
+							steps++
+						default:
+							good = false
+						}
+					}
+					if good && inits == 1 && init != nil && steps >= 1 {
+						return init, hi, stepBy, 0, true
+					}
+				}
+				return nil, 0, 0, 0, false
+			}
+			// index stride: B[off+c : off+c+K], off := c0 once, every other assignment off += K
+			if x.High == nil {
+				return nil, 0, 0, 0, false
+			}
+			lo := linForm{}
+			if x.Low != nil {
+				l, okLo := linOf(info, x.Low)
+				if !okLo {
+					return nil, 0, 0, 0, false
+				}
+				lo = l
+			}
+			hi, okHi := linOf(info, x.High)
+			if !okHi {
+				return nil, 0, 0, 0, false
+			}
+			width, isC := int64(0), true
+			for t, v := range hi.add(lo, -1) {
+				if t != "1" {
+					isC = false
+				}
+				width = v
+			}
+			if !isC || width <= 0 {
+				return nil, 0, 0, 0, false
+			}
+			if x.Low == nil {
+				return nil, 0, 0, 0, false // B[:K]: a prefix, not a walk
+			}
+			// the cursor: the one function-local variable of the lower bound, with coefficient 1
+			var off types.Object
+			offName := ""
+			ast.Inspect(x.Low, func(n ast.Node) bool {
+				if id, isID := n.(*ast.Ident); isID {
+					if o := localVar(id); o != nil && lo[id.Name] == 1 {
+						if off != nil && off != o {
+							offName = "?"
+						}
+						off = o
+						if offName == "" {
+							offName = id.Name
+						}
+					}
+				}
+				return true
+			})
+			if off == nil || offName == "?" {
+				return nil, 0, 0, 0, false
+			}
+			c := int64(0)
+			for t, v := range lo {
+				switch t {
+				case offName:
+				case "1":
+					c = v
+				default:
+					return nil, 0, 0, 0, false
+				}
+			}
+			as, opaque := assignsOf(off)
+			if opaque {
+				return nil, 0, 0, 0, false
+			}
+			inits, steps, c0 := 0, 0, int64(0)
+			stepBy := int64(-1)
+			sameStep := func(v int64) bool {
+				if v <= 0 || (stepBy >= 0 && v != stepBy) {
+					return false
+				}
+				stepBy = v
+				return true
+			}
+			for _, a := range as {
+				switch a.tok {
+				case token.DEFINE:
+					inits++
+					v, isConst := constOf(a.rhs)
+					if !isConst {
+						return nil, 0, 0, 0, false
+					}
+					c0 = v
+				case token.ADD_ASSIGN:
+					if v, isConst := constOf(a.rhs); !isConst || a.rhs == nil || !sameStep(v) {
+						return nil, 0, 0, 0, false
+					}
+					steps++
+				case token.INC:
+					if !sameStep(1) {
+						return nil, 0, 0, 0, false
+					}
+					steps++
+				case token.ASSIGN: // off = off + K
+					l, okL := linOf(info, a.rhs)
+					if !okL {
+						return nil, 0, 0, 0, false
+					}
+					d := l.add(linForm{offName: 1}, -1)
+					if len(d) != 1 || !sameStep(d["1"]) {
+						return nil, 0, 0, 0, false
+					}
+					steps++
+				default:
+					return nil, 0, 0, 0, false
+				}
+			}
+			if inits != 1 || steps < 1 {
+				return nil, 0, 0, 0, false
+			}
+			return x.X, width, stepBy, c0 + c, true
+		}
 		var shape func(e ast.Expr, depth int) string
 		shape = func(e ast.Expr, depth int) string {
 			e = ast.Unparen(e)
@@ -422,6 +667,22 @@ func c14TallyKeyAgreement(c *rep.Ctx) {
 				}
 				return name + "(" + strings.Join(args, ",") + ")"
 			case *ast.SliceExpr:
+				if base, k, step, from, isStride := strideOf(x); isStride {
+					if !precise {
+						return "slice(" + shape(base, depth+1) + ")"
+					}
+					// stride(B,K): consecutive K-byte pieces; a window narrower or wider
+					// than the step is a different key derivation and spelled as such
+					sh := "stride(" + shape(base, depth+1) + "," + itoa64(k)
+					if step != k {
+						sh = "window(" + shape(base, depth+1) + "," + itoa64(k) + ",step=" + itoa64(step)
+					}
+					if from != 0 {
+						sh += ",from=" + itoa64(from)
+					}
+					return sh + ")"
+				}
+				unrec = true
 				return "slice(" + shape(x.X, depth+1) + ")"
 			case *ast.SelectorExpr:
 				if fld := an.FieldOf(info, x); fld != nil {
@@ -439,15 +700,23 @@ func c14TallyKeyAgreement(c *rep.Ctx) {
 			}
 			return true
 		})
-		var out []string
 		for k := range set {
-			out = append(out, k)
+			keys = append(keys, k)
 		}
-		sort.Strings(out)
-		return out
+		sort.Strings(keys)
+		return keys, unrec
 	}
-	a, s := shapes(add), shapes(sub)
+	a, unrecA := shapes(add, true)
+	s, unrecS := shapes(sub, true)
 	ok := len(a) > 0 && strings.Join(a, " | ") == strings.Join(s, " | ")
+	if !ok && (unrecA || unrecS) {
+		// a slice that is not a recognised stride walk on one side: compare with bounds ignored on both
+		ca, _ := shapes(add, false)
+		cs, _ := shapes(sub, false)
+		if len(ca) > 0 && strings.Join(ca, " | ") == strings.Join(cs, " | ") {
+			ok, a, s = true, ca, cs
+		}
+	}
 	c.Check("tally-key-agreement", "contract/system.(*VoteResult).AddVote/SubVote", add.Pos(), ok, "the tally map is credited and debited under keys derived the same way from the recorded vote (AddVote: "+strings.Join(a, " | ")+"; SubVote: "+strings.Join(s, " | ")+"): otherwise taking a vote back looks up a key that was never credited (nil big.Int: panic in block execution) and the tally keeps coins that were withdrawn")
 }
 
